@@ -288,6 +288,9 @@ func runReplayTest(repo, pkgdir, tags, src string) (bool, bool, string) {
 		out = out[:6000] + "...(truncated)"
 	}
 	if err == nil {
+		if strings.Contains(out, "no tests to run") || strings.Contains(out, "no test files") {
+			return false, false, out // the template is excluded from this build: nothing ran
+		}
 		return true, false, out
 	}
 	if strings.Contains(out, "--- FAIL") || strings.Contains(out, "panic:") || strings.Contains(out, "WARNING: DATA RACE") {
@@ -360,6 +363,7 @@ func tryReplay(verif, prop string, o *Obligation, rf *replayFile) {
 	ran, failed, out := runReplayTest(fv.P.Root, pkgdir, tags, src)
 	rf.ReplayRan, rf.ReplayFails, rf.ReplayOut = ran, failed, out
 	o.replayed = ran && failed
+	o.replayPassed = ran && !failed
 }
 
 func cmdReplay(args []string) int {
